@@ -244,7 +244,7 @@ PROPS = {
     "C15": {"kind": "cl", "title": "CL03 proof of knowledge of a signature",
             "level_text": CLTXT + "C15: invariant C15used (every leaf the format carries is used by the verifier); every hidden subset, single edits of the statement, and every integer leaf of the serialised proof perturbed (+1, -1, 0, swap)."},
     "C16": {"kind": "cl", "title": "Boudot range proof",
-            "level_text": CLTXT + "C16: invariant C16anchored (every part of the square decomposition is certified by a sub-proof tied to a recomputed value); widths 1, 2, 3, 2^8, 2^64, 2^256-1 (thorough 2^1024-1), positions a, a+1, mid, b-1, b, random, three base sets; other bounds / bases / modulus; transplants onto a-1, b+1, a-2^k, b+2^k and a random element; every leaf +-1; the honest prover outside the interval."},
+            "level_text": CLTXT + "C16: invariant C16anchored (every part of the square decomposition is certified by a sub-proof tied to a recomputed value); widths 1, 2, 3, 2^8, 2^64, 2^256-1 (thorough 2^1024-1), positions a, a+1, mid, b-1, b, random, three base sets; other bounds / bases / modulus; invariant C16tolerance (toy intervals: only in-range values are acceptable given what the larger-interval proof shows); transplants onto a-1, b+1, a-2^k, b+2^k and a random element; shifted proofs (commitment divided by g^d, larger-interval responses moved accordingly) onto a-1, b+1, a-w, b+w; every leaf +-1; the honest prover outside the interval."},
     "C17": {"kind": "cl", "title": "CL03 proofs do not carry openings",
             "level_text": CLTXT + "C17: invariant C17noOpenings (the intended formats contain no commitment randomness); the leaf paths of real proofs must equal the specification's format; every (value, randomness) pair is tested against every public base pair and hidden secret, a two-candidate dictionary attack and the recovery of v."},
     "C18": {"kind": "cl", "title": "CL03 keys and parameters",
@@ -680,9 +680,9 @@ def run_det_property(prop, tier):
         inject = " ".join(r.group(1).split()) if r else None
     # API slices: octet / decision agreement (C10) or cross-suite / cross-interface rejections (C11)
     api = {}
-    slices = (["sig", "proof", "blind", "update", "shape_sig"] if prop == "C10" else ["sig", "proof_adv", "blind_adv"])
+    slices = (["sig", "proof", "blind", "shape_sig", "update"] if prop == "C10" else ["sig", "proof_adv", "blind_adv"])
     if tier == "quick":
-        slices = slices[:3] if prop == "C10" else slices
+        slices = slices[:4] if prop == "C10" else slices
     samples = list(rep["samples"][:2])
     tot_states, tot_trans, ncases = stats["distinct"], stats["states"], n
     for name in slices:
@@ -735,7 +735,7 @@ CL = {
     "C13": {"inv": ["C13toy", "ExportDerivs"], "drivers": ["sig"], "ops": {"CLVerify", "CLSigFacts", "CLDisclose", "CLRoundTrip"}},
     "C14": {"inv": ["C15used"], "drivers": ["blind"], "ops": {"CLIssue", "CLUpdate", "CLLeaf:zkpok"}},
     "C15": {"inv": ["C15used", "ReportLinks"], "drivers": ["pok"], "ops": {"CLPoK", "CLLeaf:spok", "CLFormat:spok", "CLInfoLink"}},
-    "C16": {"inv": ["C16anchored"], "drivers": ["boudot"], "ops": {"CLRange", "CLLeaf:range", "CLFormat:range"}},
+    "C16": {"inv": ["C16anchored", "C16tolerance"], "drivers": ["boudot"], "ops": {"CLRange", "CLLeaf:range", "CLFormat:range"}},
     "C17": {"inv": ["C17noOpenings"], "drivers": ["leak", "blind"], "ops": {"CLFormat:zkpok", "CLFormat:spok", "CLOpenings", "CLDictionary", "CLUnblinded", "CLSharedBlinding"}},
     "C18": {"inv": ["C18toy"], "drivers": ["keys", "sig"], "ops": {"CLKeyFacts", "CLRandomFacts", "CLRoundTrip"}},
     "C19": {"inv": ["C19masks"], "drivers": ["leak"], "ops": {"CLMask", "CLMaskLens", "CLMaskSummary", "CLUnblinded", "CLSharedBlinding", "CLFresh", "CLPoK"}},
@@ -765,6 +765,8 @@ def finding_matches(f, ev):
                 continue
             if k == "path_in":
                 ok &= ev.get("path") in v
+            elif k == "case_in":
+                ok &= ev.get("case") in v
             elif k == "path_suffix":
                 ok &= str(ev.get("path", "")).endswith(v)
             elif k == "paths_contain_suffix":
